@@ -246,3 +246,58 @@ def const_value(e):
         except Exception:
             return None
     return None
+
+
+# ---------------------------------------------------------------------------
+def calls_on_field(prog, owner_adt, field, funcs=None, argpos=None):
+    """call sites that receive (a reference to / the value of) the place `….field` of ADT owner_adt as an argument.
+    yields (Site, arg index, is_mut_borrow)"""
+    out = []
+    fs = funcs if funcs is not None else [f for _, f in sorted(prog.funcs.items())]
+    for f in fs:
+        b = f.body
+        x = X(b)
+        for bb, t in b.calls():
+            for ai, a in enumerate(t.args):
+                if argpos is not None and ai != argpos:
+                    continue
+                if a.place is None:
+                    continue
+                pl = a.place
+                mut = False
+                hops = 0
+                # chase single-def temps: _5 = &mut (*_1).field ; _6 = &(*_5) ...
+                while hops < 6:
+                    hops += 1
+                    fl = [e for e in pl[1] if e[0] == "f"]
+                    if fl and fl[-1][2] == field and fl[-1][3] == owner_adt:
+                        out.append((Site(f, b, bb, t, x.call_expr(bb, t, x.depth)), ai, mut))
+                        break
+                    sd = b.single_def(pl[0])
+                    if sd is None or sd[1] == "term":
+                        break
+                    rv = b.blocks[sd[0]].stmts[sd[1]].rv
+                    if rv.k in ("ref", "rawptr"):
+                        mut = mut or bool(rv.j.get("mut"))
+                        pl = rv.place
+                    elif rv.k == "use" and rv.ops[0].place is not None:
+                        pl = rv.ops[0].place
+                    else:
+                        break
+    return out
+
+
+from .cfg import Site  # noqa: E402
+
+
+def field_type(prog, adt, field):
+    a = prog.adt(adt)
+    for v in a["variants"]:
+        for fl in v["fields"]:
+            if fl["name"] == field:
+                return fl["ty"]
+    raise model.AnchorMissing("%s has no field %s" % (adt, field))
+
+
+def method_name(site):
+    return norm_path(site.term.callee_path()).split("::")[-1]
